@@ -1,6 +1,6 @@
 /- C05: a frame's checksum covers exactly that frame's bytes (frame_cks_exact at Gen.env), by the algorithm the
    pinned schema names; the algorithms themselves are C14. -/
-import FinProto.Obl.Pinned
+import FinProto.Obl.SPinnedTypes
 import FinProto.Props.EncLemmas
 set_option linter.defProp false
 namespace FinProto.Obl
